@@ -162,6 +162,8 @@ struct St {
     ready: Vec<bool>,
     done: Vec<bool>,
     blocked: Vec<Option<usize>>,
+    blocked_val: Vec<u32>,
+    rescued: u64,
     in_call: Vec<Option<u32>>,
     cur_call: Vec<u32>,
     parked_site: Vec<usize>,
@@ -287,7 +289,7 @@ pub fn intercept_futex(addr: usize, op: i32, val: u32) -> Option<i64> {
                 unsafe { *libc::__errno_location() = libc::EAGAIN };
                 -1
             } else {
-                sh.block_on(c, addr);
+                sh.block_on(c, addr, val);
                 0
             }
         } else {
@@ -598,10 +600,25 @@ impl Shared {
                         self.cv[self.n].notify_one();
                     }
                     Kind::Blocked => {
-                        // every other thread is finished or blocked as well: a deadlock inside the code under test
-                        // (or a wake-up the simulator could not see). No verdict.
-                        drop(st);
-                        finish_inconclusive("deadlock");
+                        // every other thread is finished or blocked as well. Either a deadlock inside the code under
+                        // test, or the wake-up will come from a thread the simulator does not own (one the library
+                        // spawned itself): wait, in real time and bounded, for one of the futex words to change.
+                        let (st2, who) = self.rescue(st);
+                        st = st2;
+                        match who {
+                            Some(i) if i == me => {}
+                            Some(i) => {
+                                st.current = i;
+                                self.cv[i].notify_one();
+                                while st.current != me {
+                                    st = self.cv[me].wait(st).unwrap();
+                                }
+                            }
+                            None => {
+                                drop(st);
+                                finish_inconclusive("deadlock");
+                            }
+                        }
                     }
                     _ => {}
                 }
@@ -613,12 +630,35 @@ impl Shared {
         st.compute_wake(self.spec, me, call_no, tick)
     }
 
+    /// Nobody is eligible. Poll (1 ms steps, at most 0.4 s) the futex words parked threads wait on; if one no longer
+    /// holds the value its waiter expected, that waiter may run again. Timing-dependent, but it only ever replaces
+    /// "no verdict" by progress; on code that spawns no threads of its own it never finds anything.
+    fn rescue<'a>(&'a self, mut st: std::sync::MutexGuard<'a, St>) -> (std::sync::MutexGuard<'a, St>, Option<usize>) {
+        for _ in 0..400 {
+            for i in 0..st.blocked.len() {
+                if let Some(addr) = st.blocked[i] {
+                    let cur = unsafe { (*(addr as *const std::sync::atomic::AtomicU32)).load(Ordering::SeqCst) };
+                    if cur != st.blocked_val[i] {
+                        st.blocked[i] = None;
+                        st.rescued += 1;
+                        return (st, Some(i));
+                    }
+                }
+            }
+            drop(st);
+            std::thread::sleep(std::time::Duration::from_millis(1));
+            st = self.m.lock().unwrap();
+        }
+        (st, None)
+    }
+
     /// `me` is about to sleep on the futex word at `addr`: park it in the simulator instead.
-    fn block_on(&self, c: &TickCtx, addr: usize) {
+    fn block_on(&self, c: &TickCtx, addr: usize, expected: u32) {
         let me = c.me.get();
         {
             let mut st = self.m.lock().unwrap();
             st.blocked[me] = Some(addr);
+            st.blocked_val[me] = expected;
             st.futex_waits += 1;
         }
         let wake = self.decision(me, c.call_no.get(), c.ticks.get(), Kind::Blocked, c);
@@ -729,7 +769,7 @@ impl Shared {
             "st": status,
             "h": format!("{:016x}", st.log.finish()),
             "sh": format!("{:016x}", st.sched.finish()),
-            "calls": st.calls, "ticks": st.ticks, "bt": st.block_ticks, "shh": st.shared_hits, "fw": st.futex_waits,
+            "calls": st.calls, "ticks": st.ticks, "bt": st.block_ticks, "shh": st.shared_hits, "fw": st.futex_waits, "rsc": st.rescued,
             "steps": st.step, "sw": st.switches,
             "f": st.f[1..9].to_vec(),
             "cr": st.clock_reads,
@@ -868,6 +908,8 @@ pub fn run_child(pool: &Pool, spec: &RunSpec) -> ! {
         ready: vec![false; n],
         done: vec![false; n],
         blocked: vec![None; n],
+        blocked_val: vec![0; n],
+        rescued: 0,
         in_call: vec![None; n],
         cur_call: vec![0; n],
         parked_site: vec![BOUNDARY; n],
@@ -979,8 +1021,18 @@ pub fn run_child(pool: &Pool, spec: &RunSpec) -> ! {
                     sh.cv[nx].notify_one();
                 }
                 None => {
-                    drop(st);
-                    finish_inconclusive("deadlock");
+                    let (st2, who) = sh.rescue(st);
+                    st = st2;
+                    match who {
+                        Some(i) => {
+                            st.current = i;
+                            sh.cv[i].notify_one();
+                        }
+                        None => {
+                            drop(st);
+                            finish_inconclusive("deadlock");
+                        }
+                    }
                 }
             }
         }
